@@ -465,10 +465,10 @@ LITE = {
 }
 # (engine, workload property, quick cases or stride, thorough ...): hist/io take a case count, shape/paths a stride over their space
 C17_WORKLOADS = [
-    ("hist", "C01", 700), ("hist", "C02", 700), ("hist", "C03", 600), ("hist", "C04", 600), ("hist", "C05", 600), ("hist", "C06", 600), ("hist", "C16", 600),
-    ("shape", "C08", 9), ("shape", "C09", 9), ("shape", "C10", 9),
-    ("paths", "C11", 9), ("paths", "C12", 9), ("paths", "C19", 5),
-    ("io", "C13", 900), ("io", "C14", 900),
+    ("hist", "C01", 420), ("hist", "C02", 420), ("hist", "C03", 300), ("hist", "C04", 300), ("hist", "C05", 300), ("hist", "C06", 400), ("hist", "C16", 400),
+    ("shape", "C08", 23), ("shape", "C09", 29), ("shape", "C10", 23),
+    ("paths", "C11", 19), ("paths", "C12", 31), ("paths", "C19", 7),
+    ("io", "C13", 600), ("io", "C14", 600),
 ]
 C17_FLAVORS = {"quick": ["asan", "debug", "o2", "clang-asan"], "thorough": ["asan", "debug", "o2", "o0", "clang-asan", "clang-o2", "valgrind"]}
 
@@ -507,8 +507,11 @@ def run_c17(prop, tier, seed):
                 stride = max(1, (amount * slow) // mult)
                 cases = total
                 extra = ["--x-stride", str(stride)]
+            tw = time.time()
             r = V.run_sharded(wl, binary, extra, cases, seed, "quick", V.NCPU, 1800 if tier == "quick" else 14400, replay_dir(prop), prefix=prefix,
                               tag="c17-%s-%s" % (fl, wl))
+            if os.environ.get("VERIF_VERBOSE"):
+                log("[c17] %-10s %s %.1fs" % (fl, wl, time.time() - tw))
             if r.inconclusive and not res.inconclusive:
                 res.inconclusive = "[%s/%s] %s" % (fl, wl, r.inconclusive)
             executed = cases if eng in ("hist", "io") else (cases + int(extra[1]) - 1) // int(extra[1])
